@@ -33,6 +33,7 @@ type Stream struct {
 	Content string `json:"content"` // rand zeros period text
 	Chunk   string `json:"chunk"`   // one small mixed big
 	Seed    uint64 `json:"seed"`
+	PauseMs int    `json:"pause_ms,omitempty"` // the writer stops for this long after half of the stream (long-lived connections)
 }
 
 type ConnScript struct {
@@ -165,8 +166,16 @@ func writeChunked(w io.Writer, data []byte, s Stream, limit int) (int, error) {
 	}
 	x := s.Seed*2654435761 | 1
 	total := 0
+	half, paused := len(data)/2, s.PauseMs <= 0
 	for len(data) > 0 {
 		n := len(data)
+		if !paused && total >= half {
+			paused = true
+			time.Sleep(time.Duration(s.PauseMs) * time.Millisecond)
+		}
+		if !paused && n > half-total {
+			n = half - total
+		}
 		switch s.Chunk {
 		case "small":
 			n = 1 + int(x%97)
@@ -180,6 +189,12 @@ func writeChunked(w io.Writer, data []byte, s Stream, limit int) (int, error) {
 		x ^= x << 17
 		if n > len(data) {
 			n = len(data)
+		}
+		if !paused && n > half-total {
+			n = half - total
+		}
+		if n <= 0 {
+			n = 1
 		}
 		m, err := w.Write(data[:n])
 		total += m
@@ -329,7 +344,11 @@ func run1(c Case) error {
 		}
 		return nil
 	}
-	deadline := time.Now().Add(25 * time.Second)
+	maxPause := 0
+	for _, cs := range c.Conns {
+		maxPause = max(maxPause, cs.Up.PauseMs, cs.Down.PauseMs)
+	}
+	deadline := time.Now().Add(25*time.Second + time.Duration(maxPause)*time.Millisecond)
 	var bwg sync.WaitGroup
 	for pi := 0; pi < c.NProxies; pi++ {
 		l, e := net.Listen("tcp", "127.0.0.1:0")
@@ -734,7 +753,7 @@ func run1(c Case) error {
 				return fmt.Errorf("%s: both ends stayed open, yet the backend received %d/%d and the user %d/%d bytes", desc, upN, cs.Up.Len, r.down.n, cs.Down.Len)
 			}
 		case "backend-closes":
-			if upN != cs.Up.Len {
+			if reliable(c) && upN != cs.Up.Len { // (raw kcp scripts other than duplex run under a 4 s deadline of the harness)
 				return fmt.Errorf("%s: backend received %d of %d request bytes", desc, upN, cs.Up.Len)
 			}
 			if reliable(c) && r.down.n != cs.Down.Len {
@@ -858,6 +877,37 @@ func classify(c Case) fx.Class {
 }
 
 var probeMode bool
+
+// long_lived: connections that are still carrying data more than 30 s after they were accepted (frps arms 30 s
+// deadlines while it sniffs the SNI / CONNECT / first byte; nothing of that may survive into the tunnel).
+func genLong(t *rapid.T) Case {
+	c := Case{Kind: rapid.SampledFrom([]string{"https", "tcpmux", "tcp", "stcp"}).Draw(t, "kind"), Enc: rapid.Bool().Draw(t, "enc"), Comp: rapid.Bool().Draw(t, "comp"),
+		TCPMux: rapid.Bool().Draw(t, "tcpmux"), TLS: rapid.Bool().Draw(t, "tls"), CustomByte: true, Transport: rapid.SampledFrom([]string{"tcp", "tcp", "websocket"}).Draw(t, "transport"), NProxies: 1}
+	if c.Kind == "tcpmux" {
+		c.Passthru = rapid.Bool().Draw(t, "passthru")
+	}
+	if c.Kind == "https" {
+		c.SharedPort = rapid.Bool().Draw(t, "shared")
+	}
+	pause := rapid.SampledFrom([]int{30500, 31500, 33000}).Draw(t, "pause")
+	up := Stream{Len: rapid.SampledFrom([]int{2, 100, 70000}).Draw(t, "uplen"), Content: "rand", Chunk: rapid.SampledFrom([]string{"one", "small"}).Draw(t, "upchunk"), Seed: rapid.Uint64().Draw(t, "upseed")}
+	down := Stream{Len: rapid.SampledFrom([]int{2, 100, 70000}).Draw(t, "downlen"), Content: "rand", Chunk: rapid.SampledFrom([]string{"one", "small"}).Draw(t, "downchunk"), Seed: rapid.Uint64().Draw(t, "downseed")}
+	switch rapid.IntRange(0, 2).Draw(t, "who") {
+	case 0:
+		up.PauseMs = pause
+	case 1:
+		down.PauseMs = pause
+	default:
+		up.PauseMs, down.PauseMs = pause, pause
+	}
+	c.Conns = []ConnScript{{Proxy: 0, Up: up, Down: down, Mode: "duplex"}}
+	return c
+}
+
+func TestLongLived(t *testing.T) {
+	fx.Run(t, fx.Spec[Case]{Prop: "C01", Name: "long_lived", Quick: 8, Thorough: 64, Gen: genLong, Run: run, Journal: true, ShrinkTime: "70s",
+		Class: func(c Case) fx.Class { return fx.Class{NonTrivial: true, Fingerprint: caseBrief(c) + fmt.Sprint(c.Conns), Labels: []string{"kind=" + c.Kind}} }})
+}
 
 // Deterministic probe for the recorded finding "raw-kcp-close": control transport kcp with stream
 // multiplexing off gives every work connection its own kcp session, and closing a kcp session sends
